@@ -347,7 +347,17 @@ def shrink_dataset(ds, key):
 PERCENTAGES = [0.0, 1.0, 0.5, 0.1, 0.9, 1.0 / 3, 0.7, 0.29, 0.99, 0.25]
 
 
-def gen_split_case(rng, max_n):
+# (n, percentage) pairs whose binary64 product lies a hair below an integer (100 * 0.29 = 28.999999999999996): the first
+# set has int(n * percentage) samples, the truncated float product - any rounding before the truncation changes it
+NEAR_INTEGER = [(n_, k_ / 100.0) for n_ in range(2, 121) for k_ in range(1, 100)
+                if int(n_ * (k_ / 100.0)) != int(round(n_ * (k_ / 100.0), 8))]
+
+
+def gen_split_case(rng, max_n, near=None):
+    if near is not None:
+        n, pct_ = near
+        return dict(X=[[rng.gauss(0, 5)] for _ in range(n)], Y=[rng.randrange(3) for _ in range(n)], pct=pct_,
+                    seed=rng.randrange(2 ** 32), mode="near_integer")
     n = rng.choice([1, 2, 3, 4, 5, 7, 10, 13, 20, rng.randint(1, max_n), rng.randint(1, max_n)])
     nf = rng.randint(1, 5)
     mode = rng.choice(["distinct", "distinct", "dups", "ints"])
@@ -578,6 +588,7 @@ def _main_body(rep, rng, tier):
     # ---- split / merge
     n_split = 300 if quick else 2500
     scases = [gen_split_case(rng, 60 if quick else 200) for _ in range(n_split)]
+    scases += [gen_split_case(rng, 0, near=pr) for pr in (NEAR_INTEGER[:12] if quick else NEAR_INTEGER)]
     sterms, sexpect, sres = [], [], []
     sstats = dict(n={}, percentages={}, modes={}, halt_zero=0, halt_all=0, halt_float_vs_exact_floor_differs=0)
     for c in scases:
